@@ -300,3 +300,50 @@ class Budget(object):
                 res.see('time-budget-stop')
             return True
         return False
+
+
+# ------------------------------------------------------------------ REAL types that ask for base 8 / base 16 (binEncBase)
+
+def realbase_case(rng):
+    """-> (base, mantissa, exponent, wrap): a finite non-zero base-2 REAL for a Real subtype with binEncBase set."""
+    m = rng.choice([1, 3, 5, 7, 255, 256, 257, 12345, (1 << 53) + 1, (1 << 64) - 1, rng.getrandbits(70) | 1,
+                    rng.getrandbits(20) << rng.randint(0, 9), rng.getrandbits(200) | 1]) * rng.choice([1, -1])
+    e = rng.choice([0, 1, -1, 2, 3, -2, -3, 4, -4, 5, -5, 7, 8, -8, 127, 128, -127, -128, -129, 255, 256, -255, -256, -257,
+                    1000, -1000, 32767, 32768, -32768, -32769, rng.randint(-300, 300), rng.randint(-70000, 70000)])
+    wrap = rng.choice(['bare', 'bare', 'implicit', 'explicit', 'in-seq', 'in-seqof'])
+    return (rng.choice([8, 16]), m, e, wrap)
+
+
+_REALBASE_CLASSES = {}
+
+
+def realbase_objects(base, m, e, wrap):
+    """-> (value object of a Real subclass with binEncBase=base, plain schema to decode with, reader of the decoded
+    object returning the REAL inside)."""
+    from pyasn1.type import namedtype, tag, univ
+    cls = _REALBASE_CLASSES.get(base)
+    if cls is None:
+        cls = _REALBASE_CLASSES[base] = type('RealBase%d' % base, (univ.Real,), {'binEncBase': base})
+
+    def shape(proto):
+        if wrap == 'implicit':
+            return proto.subtype(implicitTag=tag.Tag(tag.tagClassContext, tag.tagFormatSimple, 40))
+        if wrap == 'explicit':
+            return proto.subtype(explicitTag=tag.Tag(tag.tagClassApplication, tag.tagFormatConstructed, 2))
+        return proto
+    inner_v = shape(cls()).clone((m, 2, e))
+    inner_s = shape(univ.Real())
+    if wrap == 'in-seq':
+        def mk(x):
+            return univ.Sequence(componentType=namedtype.NamedTypes(
+                namedtype.NamedType('n', univ.Integer()), namedtype.NamedType('r', x)))
+        val = mk(shape(cls()))
+        val['n'] = 7
+        val['r'] = inner_v
+        return val, mk(inner_s), (lambda d: d['r'])
+    if wrap == 'in-seqof':
+        val = univ.SequenceOf(componentType=shape(cls()))
+        val.append(inner_v)
+        val.append(inner_v)
+        return val, univ.SequenceOf(componentType=inner_s), (lambda d: d[1])
+    return inner_v, inner_s, (lambda d: d)
